@@ -18,6 +18,7 @@ import (
 	"strconv"
 	"strings"
 	"syscall"
+	"time"
 
 	xtar "github.com/richardwilkes/toolbox/xio/fs/tar"
 	xzip "github.com/richardwilkes/toolbox/xio/fs/zip"
@@ -51,10 +52,112 @@ type entry struct {
 }
 
 // Run executes one line.
+const deadline = 20 * time.Second
+
+var hung bool
+
+// guarded runs one line with a deadline: a call that does not return is reported as `hang` at once, and the rest of
+// the stream is skipped (the runaway goroutine may still be touching the process state).
+func guarded(f func() string) string {
+	if hung {
+		return "skipped-after-crash"
+	}
+	ch := make(chan string, 1)
+	go func() { ch <- hx.Safe(f) }()
+	select {
+	case s := <-ch:
+		return s
+	case <-time.After(deadline):
+		hung = true
+		return "hang"
+	}
+}
+
+// Run executes one line against the real code.
 func (area) Run(line string) string {
+	return guarded(func() string {
+		o := execute(line, false)
+		if o.bad {
+			return "bad-op"
+		}
+		return o.res + format(o.nodes)
+	})
+}
+
+// Run of linkArea: the same sandbox and archive twice — once with `dst` a symbolic link to the sibling directory `real`
+// that holds what the sandbox put into the destination, once with `dst` that directory itself.  The two trees must be
+// the same after renaming (extracting through a linked destination is extracting into its target).  Archives with an
+// entry that names the destination itself are exempt: the guard refuses to Lstat a linked root.
+func (linkArea) Run(line string) string {
+	s := linkRun(line)
+	if s == "hang" || s == "panic" {
+		return "FAIL " + s
+	}
+	return s
+}
+
+func linkRun(line string) string {
+	return guarded(func() string {
+		a := execute(line, true)
+		b := execute(line, false)
+		if a.bad || b.bad {
+			return "bad-op"
+		}
+		var na []node
+		sawLink := false
+		for _, n := range a.nodes {
+			switch {
+			case n.rel == "dst":
+				sawLink = n.text == "s:"+hx.Hex([]byte("real"))
+				continue
+			case n.rel == "real":
+				n.rel = "dst"
+			case strings.HasPrefix(n.rel, "real/"):
+				n.rel = "dst/" + n.rel[5:]
+			}
+			na = append(na, n)
+		}
+		if !sawLink {
+			return "FAIL the destination link was replaced or removed"
+		}
+		ra, rb := a.res+format(na), b.res+format(b.nodes)
+		if ra == rb {
+			return "ok " + b.res
+		}
+		if a.rootEntry {
+			return "ok exempt-root-entry"
+		}
+		return "FAIL linked=" + clip(ra) + " plain=" + clip(rb)
+	})
+}
+
+func clip(s string) string {
+	if len(s) > 400 {
+		return s[:400] + "..."
+	}
+	return s
+}
+
+type outcome struct {
+	bad       bool
+	res       string
+	nodes     []node
+	rootEntry bool // some entry's name cleans to the destination itself
+}
+
+// execute builds the sandbox, runs the extraction and collects the tree; with dstLink the sandbox's `dst` subtree is
+// created as `real` and `dst` is a symbolic link to it.
+func execute(line string, dstLink bool) (o outcome) {
 	f := strings.Fields(line)
 	if len(f) < 2 || (f[0] != "tar" && f[0] != "zip") {
-		return "bad-op"
+		o.bad = true
+		return
+	}
+	place := func(rel string) string {
+		if dstLink && (rel == "dst" || strings.HasPrefix(rel, "dst/")) {
+			return "real" + rel[3:]
+		}
+		return rel
 	}
 	isZip := f[0] == "zip"
 	mask := oct(f[1])
@@ -68,33 +171,45 @@ func (area) Run(line string) string {
 	var entries []entry
 	limit := -1
 	via := ""
+	times := 1
 	for _, w := range f[2:] {
 		p := strings.Split(w, ":")
 		switch {
 		case p[0] == "v" && len(p) == 2:
 			via = p[1]
+		case p[0] == "r" && len(p) == 2:
+			times = hx.Atoi(p[1])
 		case p[0] == "w" && len(p) == 2:
 			limit = hx.Atoi(p[1])
 		case p[0] == "i" && p[1] == "d" && len(p) == 4:
-			path := filepath.Join(t, string(hx.UnHex(p[2])))
+			path := filepath.Join(t, place(string(hx.UnHex(p[2]))))
 			must(os.Mkdir(path, 0o700))
 			must(os.Chmod(path, modeOf(oct(p[3]))))
 		case p[0] == "i" && p[1] == "f" && len(p) == 6:
-			path := filepath.Join(t, string(hx.UnHex(p[2])))
+			path := filepath.Join(t, place(string(hx.UnHex(p[2]))))
 			must(os.WriteFile(path, pattern(hx.Atoi(p[4]), hx.Atoi(p[5])), 0o600))
 			must(os.Chmod(path, modeOf(oct(p[3]))))
 		case p[0] == "i" && p[1] == "s" && len(p) == 4:
-			must(os.Symlink(subst(string(hx.UnHex(p[3]))), filepath.Join(t, string(hx.UnHex(p[2])))))
+			must(os.Symlink(subst(string(hx.UnHex(p[3]))), filepath.Join(t, place(string(hx.UnHex(p[2]))))))
 		case p[0] == "i" && p[1] == "h" && len(p) == 4:
-			must(os.Link(filepath.Join(t, string(hx.UnHex(p[3]))), filepath.Join(t, string(hx.UnHex(p[2])))))
+			must(os.Link(filepath.Join(t, place(string(hx.UnHex(p[3])))), filepath.Join(t, place(string(hx.UnHex(p[2]))))))
 		case p[0] == "e" && len(p) == 8:
 			entries = append(entries, entry{k: p[1], name: subst(string(hx.UnHex(p[2]))), mode: oct(p[3]), seed: hx.Atoi(p[4]),
 				length: hx.Atoi(p[5]), pres: hx.Atoi(p[6]), link: subst(string(hx.UnHex(p[7])))})
 		default:
-			return "bad-op"
+			o.bad = true
+			return
 		}
 	}
 	dst := filepath.Join(t, "dst")
+	if dstLink {
+		must(os.Symlink("real", dst))
+	}
+	for _, e := range entries {
+		if e.k != "x" && e.k != "g" && filepath.Join(dst, e.name) == dst {
+			o.rootEntry = true
+		}
+	}
 	var raw []byte
 	var bad bool
 	if isZip {
@@ -103,7 +218,8 @@ func (area) Run(line string) string {
 		raw, bad = buildTar(entries)
 	}
 	if bad {
-		return "bad-op"
+		o.bad = true
+		return
 	}
 	// the archive FILE of the *Archive* forms lives outside the sandbox (it must not show up in the tree)
 	src := ""
@@ -123,52 +239,55 @@ func (area) Run(line string) string {
 		src = filepath.Join("/tmp", base+"-no-such-archive")
 	case "", "x":
 	default:
-		return "bad-op"
+		o.bad = true
+		return
 	}
 	fdsBefore := countFDs()
 	restore := writeLimit(limit)
-	var xerr error
 	fm := os.FileMode(mask)
-	switch {
-	case via == "" && !isZip:
-		xerr = xtar.ExtractWithMask(tar.NewReader(bytes.NewReader(raw)), dst, fm)
-	case via == "" && isZip:
-		xerr = xzip.ExtractWithMask(zipReader(raw), dst, fm)
-	case via == "x" && !isZip:
-		xerr = xtar.Extract(tar.NewReader(bytes.NewReader(raw)), dst)
-	case via == "x" && isZip:
-		xerr = xzip.Extract(zipReader(raw), dst)
-	case via == "a" && !isZip:
-		xerr = xtar.ExtractArchive(src, dst)
-	case via == "a" && isZip:
-		xerr = xzip.ExtractArchive(src, dst)
-	case via == "am" && !isZip:
-		xerr = xtar.ExtractArchiveWithMask(src, dst, fm)
-	case via == "am" && isZip:
-		xerr = xzip.ExtractArchiveWithMask(src, dst, fm)
-	case !isZip: // missing / cut: the mask word selects the form (0 = ExtractArchive)
-		if mask == 0 {
+	results := make([]string, 0, times)
+	for round := 0; round < times; round++ {
+		var xerr error
+		switch {
+		case via == "" && !isZip:
+			xerr = xtar.ExtractWithMask(tar.NewReader(bytes.NewReader(raw)), dst, fm)
+		case via == "" && isZip:
+			xerr = xzip.ExtractWithMask(zipReader(raw), dst, fm)
+		case via == "x" && !isZip:
+			xerr = xtar.Extract(tar.NewReader(bytes.NewReader(raw)), dst)
+		case via == "x" && isZip:
+			xerr = xzip.Extract(zipReader(raw), dst)
+		case via == "a" && !isZip:
 			xerr = xtar.ExtractArchive(src, dst)
-		} else {
-			xerr = xtar.ExtractArchiveWithMask(src, dst, fm)
-		}
-	default:
-		if mask == 0 {
+		case via == "a" && isZip:
 			xerr = xzip.ExtractArchive(src, dst)
-		} else {
+		case via == "am" && !isZip:
+			xerr = xtar.ExtractArchiveWithMask(src, dst, fm)
+		case via == "am" && isZip:
 			xerr = xzip.ExtractArchiveWithMask(src, dst, fm)
+		case !isZip: // missing / cut: the mask word selects the form (0 = ExtractArchive)
+			if mask == 0 {
+				xerr = xtar.ExtractArchive(src, dst)
+			} else {
+				xerr = xtar.ExtractArchiveWithMask(src, dst, fm)
+			}
+		default:
+			if mask == 0 {
+				xerr = xzip.ExtractArchive(src, dst)
+			} else {
+				xerr = xzip.ExtractArchiveWithMask(src, dst, fm)
+			}
+		}
+		if xerr != nil {
+			results = append(results, "err")
+		} else {
+			results = append(results, "ok")
 		}
 	}
 	restore()
 	leaked := countFDs() != fdsBefore
-	res := "ok"
-	if xerr != nil {
-		res = "err"
-	}
-	d := dump(t, base)
-	if d != "" {
-		res += " " + d
-	}
+	res := strings.Join(results, ",")
+	o.nodes = collect(t, base)
 	if leaked {
 		res += " FD-LEAK" // an *Archive* form returned without closing the archive file
 	}
@@ -178,7 +297,8 @@ func (area) Run(line string) string {
 			_ = os.RemoveAll(esc)
 		}
 	}
-	return res
+	o.res = res
+	return
 }
 
 // writeLimit makes every write beyond `limit` bytes of a file fail (RLIMIT_FSIZE: the kernel writes up to the limit and
@@ -263,16 +383,47 @@ loop:
 			hdr.Typeflag = tar.TypeLink
 		case "o":
 			hdr.Typeflag = tar.TypeFifo
-		case "x": // a header block the reader rejects
+		case "c":
+			hdr.Typeflag = tar.TypeChar
+			hdr.Devmajor, hdr.Devminor = 1, 7
+		case "b":
+			hdr.Typeflag = tar.TypeBlock
+			hdr.Devmajor, hdr.Devminor = 8, 0
+		case "n": // contiguous file: a payload the extractor has to skip
+			hdr.Typeflag = tar.TypeCont
+			hdr.Size = int64(e.length)
+		case "g": // PAX global header: the reader hands it to the caller as an entry of its own
+			hdr = &tar.Header{Typeflag: tar.TypeXGlobalHeader, PAXRecords: map[string]string{"comment": "c19"}} // its name is GlobalHead.0.0
+		case "x": // a header the reader rejects: seed 0 = a block of 0xff, seed 1 = the stream ends 100 bytes into a header
 			must(tw.Flush())
-			buf.Write(bytes.Repeat([]byte{0xff}, 512))
+			if e.seed == 1 {
+				var hb bytes.Buffer
+				hw := tar.NewWriter(&hb)
+				must(hw.WriteHeader(&tar.Header{Name: "cut", Typeflag: tar.TypeReg, Mode: 0o644}))
+				buf.Write(hb.Bytes()[:100])
+			} else {
+				buf.Write(bytes.Repeat([]byte{0xff}, 512))
+			}
 			complete = false
 			break loop
 		default:
 			return nil, true
 		}
+		// the header encoding (ustar / PAX records with a path override / GNU long names) is chosen per entry; when the
+		// chosen one cannot hold the header the writer picks for itself
+		if e.k != "g" {
+			hdr.Format = []tar.Format{tar.FormatUnknown, tar.FormatPAX, tar.FormatGNU}[e.seed%3]
+		}
 		if err := tw.WriteHeader(hdr); err != nil {
-			return nil, true
+			hdr.Format = tar.FormatUnknown
+			if err = tw.WriteHeader(hdr); err != nil {
+				return nil, true
+			}
+		}
+		if e.k == "n" {
+			if _, err := tw.Write(pattern(e.seed, e.length)); err != nil {
+				return nil, true
+			}
 		}
 		if e.k == "r" {
 			n := e.length
@@ -298,6 +449,7 @@ func buildZip(entries []entry) ([]byte, bool) {
 	var buf bytes.Buffer
 	zw := zip.NewWriter(&buf)
 	corrupt := make([]bool, len(entries))
+	resize := make([]int, len(entries)) // change of the declared uncompressed size in the central directory
 	for i, e := range entries {
 		fh := &zip.FileHeader{Name: e.name, Method: zip.Store}
 		mode := os.FileMode(e.mode & 0o777)
@@ -305,7 +457,12 @@ func buildZip(entries []entry) ([]byte, bool) {
 		bad := e.pres < e.length
 		switch e.k {
 		case "f":
+			if e.link == "L" || e.link == "S" {
+				bad = false
+				resize[i] = map[string]int{"L": 1, "S": -1}[e.link]
+			}
 		case "d":
+			bad = false
 			mode |= os.ModeDir
 		case "s":
 			mode |= os.ModeSymlink
@@ -317,8 +474,9 @@ func buildZip(entries []entry) ([]byte, bool) {
 		if strings.HasSuffix(e.name, "/") { // archive/zip writes such an entry without a payload
 			payload = nil
 			bad = false
+			resize[i] = 0
 		}
-		if !bad && e.seed%2 == 1 {
+		if !bad && resize[i] == 0 && e.seed%2 == 1 {
 			fh.Method = zip.Deflate
 		}
 		fh.SetMode(mode)
@@ -346,7 +504,26 @@ func buildZip(entries []entry) ([]byte, bool) {
 			b[off] ^= 0xff
 		}
 	}
+	patchDeclaredSizes(b, resize)
 	return b, false
+}
+
+// patchDeclaredSizes changes the uncompressed size recorded in the central directory of the i-th entry by resize[i].
+func patchDeclaredSizes(b []byte, resize []int) {
+	le16 := func(o int) int { return int(b[o]) | int(b[o+1])<<8 }
+	le32 := func(o int) int { return le16(o) | le16(o+2)<<16 }
+	eocd := bytes.LastIndex(b, []byte{0x50, 0x4b, 0x05, 0x06})
+	if eocd < 0 {
+		return
+	}
+	pos := le32(eocd + 16)
+	for i := 0; i < len(resize) && pos+46 <= len(b) && le32(pos) == 0x02014b50; i++ {
+		if resize[i] != 0 {
+			v := le32(pos+24) + resize[i]
+			b[pos+24], b[pos+25], b[pos+26], b[pos+27] = byte(v), byte(v>>8), byte(v>>16), byte(v>>24)
+		}
+		pos += 46 + le16(pos+28) + le16(pos+30) + le16(pos+32)
+	}
 }
 
 type node struct {
@@ -356,7 +533,7 @@ type node struct {
 	file bool
 }
 
-func dump(t, base string) string {
+func collect(t, base string) []node {
 	var nodes []node
 	_ = filepath.WalkDir(t, func(p string, d fs.DirEntry, err error) error {
 		if p == t {
@@ -395,6 +572,11 @@ func dump(t, base string) string {
 		}
 		return nil
 	})
+	return nodes
+}
+
+// format prints the nodes sorted by path; regular files carry the index of the first path that shares their inode.
+func format(nodes []node) string {
 	sort.Slice(nodes, func(i, j int) bool { return nodes[i].rel < nodes[j].rel })
 	first := map[uint64]int{}
 	out := make([]string, 0, len(nodes))
@@ -410,11 +592,14 @@ func dump(t, base string) string {
 		}
 		out = append(out, s)
 	}
-	return strings.Join(out, " ")
+	if len(out) == 0 {
+		return ""
+	}
+	return " " + strings.Join(out, " ")
 }
 
 func main() {
 	syscall.Umask(0)
 	signal.Ignore(syscall.SIGXFSZ) // a write beyond RLIMIT_FSIZE must fail with EFBIG instead of killing the harness
-	hx.Main(map[string]hx.Area{"extract": area{}})
+	hx.Main(map[string]hx.Area{"extract": area{}, "dstlink": linkArea{}})
 }
